@@ -65,3 +65,12 @@ Example C16_valid_config_example :
   is_valid_config (mksettings 2002 false 32 KmsPlaintext 64 0 4 true (Some (mkdir true true false)) true) = VOk true
   /\ is_valid_config (mksettings 2002 false 32 KmsPlaintext 65 0 4 true (Some (mkdir true true false)) true) = VOk false.
 Proof. split; reflexivity. Qed.
+
+(* ---- tie to the source: the integer literals of the functions this property's model stands for
+   (private constants, bounds, unit factors; the files are SiteMap.files_C16) are today the ones the
+   model was written against. Gen/Sites.v num_literals is regenerated from /repo on every run; a
+   changed, added or removed number in a modelled function breaks this obligation ---- *)
+Require RV.Gen.Sites RV.Model.SiteMap.
+Theorem C16_literals_reviewed : RV.Model.SiteMap.literals_ok RV.Model.SiteMap.files_C16.
+Proof. repeat constructor. Qed.
+Print Assumptions C16_literals_reviewed.
